@@ -21,8 +21,18 @@ import (
 
 func readAll(body io.Reader, length int64) ([]byte, error) {
 	if length > 0 {
-		data := make([]byte, length)
-		_, err := io.ReadFull(body, data)
+		// the length is what the peer declares: it sizes the buffer only as far as a sane
+		// message goes, beyond that the buffer grows with the bytes that really arrive
+		const prealloc = 1 << 20
+		if length <= prealloc {
+			data := make([]byte, length)
+			_, err := io.ReadFull(body, data)
+			return data, err
+		}
+		data, err := ioutil.ReadAll(io.LimitReader(body, length))
+		if err == nil && int64(len(data)) < length {
+			err = io.ErrUnexpectedEOF
+		}
 		return data, err
 	}
 	if body != nil {
